@@ -139,7 +139,9 @@ claim("C07", "other",
 claim("C08", "other",
       "Only the algebraic core is claimed: for fully symbolic state/operator tensors the matrix given to the eigensolver is the projection of H onto the tangent space - "
       "get_ham_direct, get_ham_iterative (diagonal + hop_expr application), the (H-omega)^2 two-layer form, StackedMpo summation, restricted to the quantum-number mask, one- and "
-      "two-site, every centre, both directions; incremental environment update = freshly built environment.",
+      "two-site, every centre, both directions; incremental environment update = freshly built environment; and the REAL drivers optimize_mps (symbolic omega, 1-/2-site) and "
+      "optimize_ttns (labelled trees) for one sweep with the eigensolver replaced by an arbitrary-output contract stub: at every local step the matrix/operator handed to the "
+      "eigensolver = projection of H resp. (H-omega)^2 onto the masked coefficients of the current state; every site/bond visited as advertised; labels kept.",
       "NOT covered: variational upper bound as an executed statement, agreement with exact diagonalisation, Davidson/ARPACK/primme behaviour, sweep convergence (float "
       "eigen-iterations). Normalisation/sector of results follow from C04/C06 lemmas.",
       "symbolic execution of the effective-Hamiltonian builders; bilinear polynomial identities decided by normal form + z3",
@@ -149,14 +151,18 @@ claim("C09", "other",
       "Only the propagation-and-compression schemes are claimed: with canonicalise/compress as identity (assume-guarantee with C04/C05) the real Mps.evolve on symbolic states, "
       "operators and dt equals the Taylor polynomial with the code's coefficients, the classical RK4 map and the Runge-Kutta map of each non-embedded tableau (constant and "
       "time-dependent H); for the adaptive embedded pairs the accept/reject bookkeeping (rejected trial leaves state and time untouched, accepted trial advances both, "
-      "sub-steps add up) with an arbitrary solver-chosen error estimate, up to two trials.",
-      "NOT covered: TDVP accuracy/conservation, solver independence, quality of the step-size heuristics (float Krylov/ODE iterations). Order of accuracy rests on C19.",
-      "symbolic execution of the real evolve drivers with identity compression stubs; polynomial identities via normal form + z3",
+      "sub-steps add up) with an arbitrary solver-chosen error estimate, up to two trials. Projector splitting: the REAL chain sweeps _evolve_tdvp_ps/_ps2 (real and imaginary "
+      "time) with expm_krylov replaced by a contract stub: effective operator at every local step = projection of H on the current state, local steps -+ i dt/2 summing to -i dt per "
+      "site and +i dt per bond, identity propagator => state unchanged, input untouched, labels valid.",
+      "NOT covered: TDVP accuracy/conservation laws as executed statements, tdvp_mu_vmf/cmf, solver independence, quality of the step-size heuristics (float Krylov/ODE iterations). "
+      "Order of accuracy rests on C19.",
+      "symbolic execution of the real evolve drivers with identity-compression / Krylov contract stubs; polynomial identities via normal form + z3",
       "DESIGN.md section 1, C09")
 
 claim("C10", "other",
       "Imaginary-time propagation-and-compression steps (Taylor, RK4, general RK) of Mps and MpDm with symbolic tau = integrator image before normalisation; normalize() kinds; "
-      "Mpo.exact_propagator with symbolic x and shift (exp uninterpreted): site tensors, scalar placement, labels; Mps/MpDm.evolve_exact with symbolic prefactor, time step and "
+      "Mpo.exact_propagator with symbolic x and shift (exp uninterpreted): site tensors, scalar placement, labels, EX-space tensors per mode against the eigenpairs of that "
+      "mode's own Hamiltonian (numeric coefficients 1e-9; modes sharing a frequency but not the displacement); Mps/MpDm.evolve_exact with symbolic prefactor, time step and "
       "non-zero symbolic energy offset: the offset phase cancels (only cos^2+sin^2=1 used), result carries it, input untouched; MpDm.max_entangled_gs.",
       "NOT covered: convergence of many imaginary-time steps to the Gibbs state, ThermalProp averages (float iteration limits). canonicalise/compress identity stubs (C04/C05).",
       "symbolic execution with uninterpreted exp/cos/sin and a stated trigonometric lemma + z3",
